@@ -1,6 +1,6 @@
 (* Entry.v — executable entry points of the model, one per correspondence family:
    decode a case, run the model, encode the observable. *)
-From SLT Require Export Decode Runner Parser Unparse FsTrim Include Update Subst Framing Partition Cli Par.
+From SLT Require Export Decode Runner Parser Unparse FsTrim Include Update Subst Framing Partition Cli Par Driver.
 Open Scope N_scope.
 
 Definition e_event (e : event) : val :=
@@ -285,6 +285,44 @@ Definition par_case (v : val) : val :=
   | Some i => vtag "refused" [VN (N.of_nat i)]
   end.
 
+(* ---- family "driver": [jobs; keep; fail_fast; files; schedule]
+   files = [[db; script; refused]] with script items ["connect",c] ["sql",c,ok] ["fail"];
+   schedule items ["driver"] ["task",i,k] ["report",i] ["ctrlc"]
+   -> [phase code; emitted events; reported [[db, code]]; exit status; accepted by the observer; mu of the initial state] *)
+Definition d_act (v : val) : act :=
+  if tag_is v "connect" then AConnect (get_n (arg 1 v))
+  else if tag_is v "sql" then ASql (get_n (arg 1 v)) (get_b (arg 2 v))
+  else AFail.
+Definition d_fcfg (v : val) : fcfg :=
+  mkF (get_s (arg 0 v)) (map d_act (get_l (arg 1 v))) (get_b (arg 2 v)).
+Definition d_choice (v : val) : choice :=
+  if tag_is v "driver" then CDriver
+  else if tag_is v "task" then CTask (N.to_nat (get_n (arg 1 v))) (N.to_nat (get_n (arg 2 v)))
+  else if tag_is v "report" then CReport (N.to_nat (get_n (arg 1 v)))
+  else CCtrlC.
+Definition e_pev (e : pev) : val :=
+  match e with
+  | PCreate d => vtag "create" [VS d]
+  | PConnect d s => vtag "connect" [VS d; VN s]
+  | PSql d s => vtag "sql" [VS d; VN s]
+  | PClose d s => vtag "close" [VS d; VN s]
+  | PCancel => vtag "cancel" []
+  | PDrop d => vtag "drop" [VS d]
+  | PMgmtClose => vtag "mgmt-close" []
+  end.
+Definition e_fresult (r : fresult) : val :=
+  VN (match r with ROk => 0 | RErr false => 1 | RCancelled => 2 | RSkipped => 3 | RErr true => 4 end).
+Definition e_phase (p : dphase) : val :=
+  VN (match p with DCreate _ => 0 | DStream => 1 | DDrop _ => 2 | DClose => 3 | DEnd => 4 end).
+
+Definition driver_case (v : val) : val :=
+  let cf := mkCfg (N.to_nat (get_n (arg 0 v))) (get_b (arg 1 v)) (get_b (arg 2 v)) (map d_fcfg (get_l (arg 3 v))) in
+  let '(st, tr) := drun cf (dst0 cf) (map d_choice (get_l (arg 4 v))) in
+  VL [e_phase (d_phase st); VL (map e_pev tr);
+      VL (map (fun p => VL [VS (fst p); e_fresult (snd p)]) (d_reported st));
+      VN (exit_of st);
+      vbool (accepts (mkParams (c_jobs cf) (kept_of cf st)) tr)].
+
 (* family dispatcher used by the extracted runner and by the vm_compute cross-check *)
 Definition model_main (fam : str) (v : val) : val :=
   if str_eqb fam (lit "run") then run_case v
@@ -298,4 +336,5 @@ Definition model_main (fam : str) (v : val) : val :=
   else if str_eqb fam (lit "partition") then partition_case v
   else if str_eqb fam (lit "cli") then cli_case v
   else if str_eqb fam (lit "par") then par_case v
+  else if str_eqb fam (lit "driver") then driver_case v
   else VS (lit "unknown-family").
